@@ -151,7 +151,7 @@ UNIT_TIMEOUT['eval'] = 1200  # the unchanged tree needs about 60 s; seeded chang
 PROPS['C11'] = {
     # eval_node is part of the cone: it decides which operator function a temporal node is evaluated by and with which arguments
     'units': ['ops', 'eval', 'canon'],
-    'functions': {'canon': [], 'ops': ['eval_neg', 'eval_ex', 'eval_ax', 'eval_eg', 'eval_af', 'eval_eu_saturated', 'eval_ef_saturated', 'eval_ag', 'eval_au', 'eval_ew', 'eval_aw'], 'eval': ['eval_node']},
+    'functions': {'canon': [], 'ops': ['eval_neg', 'eval_ex', 'eval_ax', 'eval_eg', 'eval_af', 'eval_eu', 'eval_ef', 'eval_eu_saturated', 'eval_ef_saturated', 'eval_ag', 'eval_au', 'eval_ew', 'eval_aw'], 'eval': ['eval_node']},
     'level_text': ('Proof, on every graph and for arbitrary argument sets, that each temporal operator function returns exactly its fixed-point '
                    'specification (EU/EF least, EG greatest, AU least fixed point; AX/AF/AG by duality; EX with explicit self-loops), plus proved '
                    'lemmas for the laws named in the statement: unfolding of EF / EG / EU / AU, monotonicity of EX / EU / EG / AU / AX in every '
@@ -159,7 +159,7 @@ PROPS['C11'] = {
     'level_note': ('Trusted: Verus/Z3 and the assumed contracts of pre / var_pre / set algebra of the graph library. "Coincides with reach_backward / '
                    'trap_forward as computed by the library" is NOT checked against the library code (foreign algorithms); what is proved is the '
                    'mathematical characterisation (least set containing S closed under predecessors inside the unit set; largest forward-closed subset).'),
-    'explanation': 'unit ops: eval_ex, eval_ax, eval_eu_saturated (saturation loop, both loops with invariants), eval_ef_saturated, eval_eg, eval_af, eval_ag, eval_au, eval_ew, eval_aw against spec/ctl.rs; law lemmas in spec/ctl_laws.rs.',
+    'explanation': 'unit ops: eval_ex, eval_ax, eval_eu_saturated (saturation loop, both loops with invariants), eval_ef_saturated, the classical public algorithms eval_eu / eval_ef (same least fixed points), eval_eg, eval_af, eval_ag, eval_au, eval_ew, eval_aw against spec/ctl.rs; law lemmas in spec/ctl_laws.rs.',
     'trusted': _OPS_TRUSTED,
 }
 PROPS['C06'] = {
